@@ -6,6 +6,7 @@ executed on the real objects, followed by a projection of their state in the voc
 The medium carries *encoded* APDUs (APDU.encode -> octets -> APDU.decode, the library's own codec), so frame lengths
 are real; headers are read back with an independent parser (parse_apdu)."""
 import struct
+import time
 from common import bind_source, Hang, watchdog
 bind_source()
 import vtime
@@ -468,7 +469,14 @@ class Rig:
         faults = dict(faults or {})
         self.applied = {}
         self.submit()
+        # wall-clock budget for the whole run (a transfer that sends the same segments for ever gets slower with every
+        # step): generous: a step normally takes 1..3 ms, 600 segments go through in about a second
+        t_end = time.time() + max(20.0, limit / 500.0)
         for _ in range(limit):
+            if time.time() > t_end:
+                self.hangs += 1
+                raise Hang("transaction not finished after %.0f s of wall-clock time (%d frames on the wire)" % (
+                    max(20.0, limit / 500.0), len(self.wire)))
             steps = []
             if self.app_due():
                 steps.append(("app",))
